@@ -7,9 +7,10 @@ Import ListNotations.
 Open Scope N_scope.
 
 (* observed status: 0 = BAD, 1 = NO, 2 = OK *)
-Record case := mkCase { c_id : N; c_in : bytes; c_obs : list (bytes * N) }.
+(* c_tls: the server of this case had a TLS configuration (STARTTLS accepted) *)
+Record case := mkCase { c_id : N; c_tls : bool; c_in : bytes; c_obs : list (bytes * N) }.
 
-(* the harness' server has one user "user" / "pass" and no TLS configuration *)
+(* the harness' server has one user: user / pass *)
 Definition login_ok (u p : bytes) : bool := bytes_eqb u (s2b "user"%string) && bytes_eqb p (s2b "pass"%string).
 
 Definition status_ok (s : status) (o : N) : bool :=
@@ -23,7 +24,7 @@ Fixpoint events_ok (evs : list event) (obs : list (bytes * N)) : bool :=
   end.
 
 Definition case_ok (c : case) : bool :=
-  match serve_stream login_ok false (c_in c) with
+  match serve_stream login_ok (c_tls c) (c_in c) with
   | (evs, EndClosed) => events_ok (completions evs) (c_obs c)
   | _ => false
   end.
